@@ -97,7 +97,7 @@ PROPS["C01"] = {
 }
 PROPS["C02"] = {
     "lean": ["OlricModel.Props.C02", "OlricModel.Props.C04", "OlricModel.Props.C13"],
-    "streams": [("failover", (5, 30), (60, 40)), ("cluster", (3, 150), (20, 400))],
+    "streams": [("failover", (9, 30), (60, 40)), ("cluster", (3, 150), (20, 400))],
     "model": True,
     "level_text": "Theorems, composing C04 and C13: an acknowledged write leaves the same entry on the owner and every backup owner and nowhere else (C04_put_written -> Stored); the routing table computed after the failures keeps every surviving holder listed - a listed owner or backup owner is dropped only when it is gone or reports zero keys (C02_survivor_listed_primary / _backup, from C13_backups); a Get over ANY new route that lists at least one surviving holder with the kind of copy it holds, whoever the new owner is, answers the acknowledged entry - never an older value, never not-found (C02_survives, get_all_same); fewer than R failures leave a holder alive (C02_some_survivor, pigeonhole over the distinct holders); an acknowledged Delete leaves no copy anywhere, so the key reads not-found under every later routing (C02_delete_removes_all, C02_delete_survives). Tied to the code by the failover stream: 3-5 members, R in {2,3}, read-repair off/on, up to R-1 members stopped gracefully or abruptly (no leave message), between operations or during a Put / Delete executing elsewhere (yield points), primary owners, backup owners, the coordinator; after re-stabilisation every key is read from every survivor, then the workload continues.",
     "design_ref": "DESIGN.md §6 C02",
